@@ -3,8 +3,8 @@ C15 — directory coherence: unique symbols, own type, definitions mean what
 they say.  (The model is tied to the code by running random declaration
 histories — valid and invalid — against the real registries after every step.)
 -/
-import QuantityModel.Proofs.Term
-import QuantityModel.Model.Quantity
+import QuantityModel.Proofs.Registry
+import QuantityModel.Proofs.Invariants
 namespace QM.Props.C15
 open QM
 
@@ -15,68 +15,13 @@ def SymbolsUnique (s : RegState) : Prop := (s.symMap.map Prod.fst).Nodup
 def SymbolsPointBack (s : RegState) : Prop :=
   ∀ sym u, (sym, u) ∈ s.symMap → u < s.units.length ∧ (s.unit u).symbol = sym
 
-theorem lookup_none_not_mem {α β} [BEq α] [LawfulBEq α] (l : List (α × β)) (k : α)
-    (h : (l.lookup k).isSome = false) : k ∉ l.map Prod.fst := by
-  induction l with
-  | nil => simp
-  | cons p rest ih =>
-    obtain ⟨k', v⟩ := p
-    simp only [List.lookup] at h
-    by_cases hk : k = k'
-    · subst hk; simp at h
-    · have hne : (k == k') = false := by simpa using hk
-      simp only [hne] at h
-      simp only [List.map_cons, List.mem_cons, hk, false_or]
-      exact ih h
-
-theorem lookup_none_of_not_mem {α β} [BEq α] [LawfulBEq α] (l : List (α × β)) (k : α)
-    (h : k ∉ l.map Prod.fst) : l.lookup k = none := by
-  induction l with
-  | nil => rfl
-  | cons p rest ih =>
-    obtain ⟨k', v⟩ := p
-    simp only [List.map_cons, List.mem_cons, not_or] at h
-    have hne : (k == k') = false := by simpa using h.1
-    rw [List.lookup, hne]
-    exact ih h.2
-
-/-- what a successful `_make_unit` does to the directories (one statement per
-directory): the unit gets the next id, is found under its symbol, is appended
-to the unit list of its own class and of no other class, and its stored scale
-is the numeric part of its normalised definition (1 when there is none, and for
-a reference unit). -/
-theorem makeUnit_effect (s : RegState) (c : Nat) (sym : String) (defn : Option Items)
-    (isRef : Bool) (s' : RegState) (uid : Nat)
-    (h : s.makeUnit c sym defn isRef = .ok (s', uid)) :
-    uid = s.units.length ∧
-    s'.units = s.units ++ [s'.unit uid] ∧
-    (s'.unit uid).symbol = sym ∧ (s'.unit uid).cls = c ∧ (s'.unit uid).defn = defn ∧
-    s'.symMap = s.symMap ++ [(sym, uid)] ∧
-    sym ∉ s.symMap.map Prod.fst ∧ sym ≠ "" ∧
-    s'.classes = s.classes.modify c (fun ci => { ci with units := ci.units ++ [uid] }) ∧
-    s'.clsMap = s.clsMap ∧ s'.opCache = s.opCache := by
-  unfold RegState.makeUnit at h
-  simp only at h
-  split at h
-  · simp at h
-  · split at h
-    · simp at h
-    · rename_i hne hnone
-      simp only [Except.ok.injEq, Prod.mk.injEq] at h
-      obtain ⟨rfl, rfl⟩ := h
-      have hnone' : (List.lookup sym s.symMap).isSome = false := by
-        cases hl : List.lookup sym s.symMap <;> simp_all
-      refine ⟨rfl, ?_, ?_, ?_, ?_, rfl, lookup_none_not_mem _ _ hnone', ?_, rfl, rfl, rfl⟩
-      all_goals simp [RegState.unit]
-      · simpa using hne
-
 /-- symbols stay unique and keep pointing back -/
 theorem makeUnit_preserves_symbols (s : RegState) (c : Nat) (sym : String)
     (defn : Option Items) (isRef : Bool) (s' : RegState) (uid : Nat)
     (h : s.makeUnit c sym defn isRef = .ok (s', uid))
     (hu : SymbolsUnique s) (hp : SymbolsPointBack s) :
     SymbolsUnique s' ∧ SymbolsPointBack s' := by
-  obtain ⟨huid, hunits, hsym, -, -, hmap, hnot, -, -, -, -⟩ := makeUnit_effect s c sym defn isRef s' uid h
+  obtain ⟨huid, hunits, hsym, -, -, hmap, hnot, -, -, -, -, -⟩ := makeUnit_effect s c sym defn isRef s' uid h
   constructor
   · unfold SymbolsUnique at *
     rw [hmap, List.map_append, List.nodup_append]
@@ -100,7 +45,7 @@ theorem makeUnit_lookup (s : RegState) (c : Nat) (sym : String) (defn : Option I
     (isRef : Bool) (s' : RegState) (uid : Nat)
     (h : s.makeUnit c sym defn isRef = .ok (s', uid)) :
     s'.symMap.lookup sym = some uid := by
-  obtain ⟨-, -, -, -, -, hmap, hnot, -, -, -, -⟩ := makeUnit_effect s c sym defn isRef s' uid h
+  obtain ⟨-, -, -, -, -, hmap, hnot, -, -, -, -, -⟩ := makeUnit_effect s c sym defn isRef s' uid h
   rw [hmap]
   have : s.symMap.lookup sym = none := lookup_none_of_not_mem _ _ hnot
   rw [List.lookup_append, this]; simp
@@ -163,5 +108,45 @@ theorem duplicate_dimension_rejected (s : RegState) (d : ClassDecl) (t : Items)
     (s.declClass d).2 = .error .valueError := by
   unfold RegState.declClass
   simp [hd, ht, h]
+
+/-! ### after ANY sequence of declarations (valid or rejected, any order) -/
+
+theorem lookup_of_mem_nodup {α β} [BEq α] [LawfulBEq α] (l : List (α × β)) (k : α) (v : β)
+    (hm : (k, v) ∈ l) (hn : (l.map Prod.fst).Nodup) : l.lookup k = some v := by
+  induction l with
+  | nil => simp at hm
+  | cons p rest ih =>
+    obtain ⟨k', v'⟩ := p
+    simp only [List.map_cons, List.nodup_cons] at hn
+    rw [List.lookup]
+    rcases List.mem_cons.mp hm with heq | hm'
+    · simp only [Prod.mk.injEq] at heq
+      obtain ⟨rfl, rfl⟩ := heq
+      simp
+    · have hne : k ≠ k' := by
+        intro h; subst h
+        exact hn.1 (List.mem_map.mpr ⟨(k, v), hm', rfl⟩)
+      have : (k == k') = false := by simpa using hne
+      simp only [this]
+      exact ih hm' hn.2
+
+/-- in every reachable state: every unit is found under its symbol as the
+identical unit, symbols are unique, and a type lists only units created for it -/
+theorem reachable_directories_coherent (s : RegState) (h : Reachable s) :
+    (∀ u, u < s.units.length → s.symMap.lookup (s.unit u).symbol = some u) ∧
+    (s.symMap.map Prod.fst).Nodup ∧
+    (∀ c u, u ∈ (s.cls c).units → (s.unit u).cls = c) ∧
+    (∀ sym u, s.symMap.lookup sym = some u → (s.unit u).symbol = sym) := by
+  have hI := reachable_dirInv h
+  refine ⟨?_, hI.symNodup, fun c u hu => (hI.unitLists c u hu).2, ?_⟩
+  · intro u hu
+    exact lookup_of_mem_nodup _ _ _ (hI.symTotal u hu) hI.symNodup
+  · intro sym u hl
+    exact (hI.symMap sym u (lookup_mem _ _ _ hl)).2
+
+/-- in every reachable state the term → unit directory is keyed by the units'
+own normalised definitions: the hypothesis of C02 / C10 / C17 always holds -/
+theorem reachable_term_directory_sound (s : RegState) (h : Reachable s) : TermMapSound s :=
+  (reachable_dirInv h).termMapSound
 
 end QM.Props.C15
